@@ -19,6 +19,7 @@ func init() {
 		Memo(c, "R-MEMO")
 		Tramp(c, "R-TRAMP")
 		NoSharedCell(c, "R-NOSHAREDCELL", c.Pkg("lazy"), 15)
+		UserOncePerCell(c, "R-USERONCE", []*packages.Package{c.Pkg("list"), c.Pkg("fp")})
 		Tail(c, "R-TAIL", []*packages.Package{c.Pkg("seq"), c.Pkg("list"), c.Pkg("iterator"), c.Pkg("option"), c.Pkg("try"), c.Pkg("either")})
 	})
 }
